@@ -97,7 +97,7 @@ def obligations_search(ctx: Ctx, tables: dict) -> bool:
 
 
 def main(ctx: Ctx) -> None:
-    from harness.c17 import keys, resolution, sources
+    from harness.c17 import keys, resolution, sources, values
     ctx.level = "proof"
     ctx.coverage["rule"] = (
         "resolution: every ordered tuple of ≤ 3 distinct section patterns from a pool (12 fixed + seeded sample of the "
@@ -124,6 +124,8 @@ def main(ctx: Ctx) -> None:
         "resolution_first_defined, resolution_error_codes, structured_inherit, full_precedence)",
         "compile_glob's regex = component-wise matching on dotted names (glob_correct); section names ↔ component lists (section_names_faithful)",
         "inline comments on top / later comment wins; command line over [mypy] over defaults for store-type flags",
+        "multi-entry path values: split, then strip and expand each entry, at every position (convPathList_entries; "
+        "not_expand_whole_then_split)",
         "strict inside one source and across sources (strict_explicit_key_wins, strict_expands, cli_strict_over_config_key, "
         "cli_flag_over_strict, strict_source_equiv; strict_opposites_expressible over the regenerated strict list)",
         "over the regenerated tables: cli_ini_agree, dest_settable, toml_ini_same_keys, per_module_flags_inline_ok, strict_flags_ok, "
@@ -144,6 +146,7 @@ def main(ctx: Ctx) -> None:
     if ok:
         resolution.resolution_correspondence(ctx)
         resolution.glob_correspondence(ctx)
+        values.depth_gaps(ctx)
         keys.keys_correspondence(ctx, tables)
         keys.invert_correspondence(ctx, tables)
         keys.inline_correspondence(ctx)
@@ -154,6 +157,8 @@ def main(ctx: Ctx) -> None:
         sources.precedence_pairs(ctx, tables)
         sources.parsed_sections(ctx)
         sources.section_tables(ctx)
+        values.value_conversion(ctx, tables)
+        values.target_layering(ctx)
         sources.diagnostics_equivalence(ctx, tables)
         sources.precedence_diagnostics(ctx)
         sources.strict_diagnostics(ctx, tables)
@@ -203,6 +208,18 @@ def replay(ctx: Ctx, path: str) -> int:
         print("documented:", det.get("documented"))
     elif kind == "process":
         print(keys.real_process(ctx, det["ini"], det["cli"], 0))
+    elif kind == "depth-gap":
+        from harness.c17 import values
+        secs = [(p, ch) for p, ch in det["sections"]]
+        print("sections (file order; each sets only its own probe option):", secs)
+        print(f"clone_for_module({det['module']!r}):", values.gap_real(secs, [det["module"]])[0])
+        print("documented (the sections that apply):", det.get("documented"))
+    elif kind == "value":
+        from harness.c17 import values
+        values.replay_value(ctx, det)
+    elif kind == "targets":
+        from harness.c17 import values
+        values.replay_targets(ctx, det)
     elif kind == "strict-override":
         w = sources.Work(ctx, "replay")
         o, err = w.options(det["cli"], det["config_name"], det["config_text"])
